@@ -454,7 +454,20 @@ namespace DFS
 	// The "file system" of the other side may not be valid, so
 	// this filter has some false negatives.  Therefore, only use
 	// it if we would otherwise not be able to guess the format.
-	possible = filter_formats(possible, other_side_has_catalog_too);
+	std::vector<DFS::ImageFileFormat> narrowed =
+	  filter_formats(possible, other_side_has_catalog_too);
+	if (!narrowed.empty())
+	  {
+	    possible = narrowed;
+	  }
+	else if (DFS::verbose)
+	  {
+	    // For example a two-sided image whose second side is
+	    // blank.  The filter can't help us choose, so don't let
+	    // it eliminate every possibility.
+	    std::cerr << "None of the possible geometries has a catalog on "
+		      << "the other side, so ignoring that criterion\n";
+	  }
 	show_possible("probe_geometry after removing two-sided geometries lacking a catalog on the other side",
 		      possible);
       }
